@@ -6,6 +6,7 @@ def check(ctx, rep):
     gen.gen_1(ctx, rep)
     gen.gen_2(ctx, rep)
     gen.gen_3(ctx, rep)
+    gen.gen_6(ctx, rep)
     thompson.gen_5(ctx, rep)      # EBNF -> NFA fragments: language of every construction path
     gr.gr_1_4(ctx, rep, with_follow=True)
     rep.note('Not decided: faithfulness of the NFA -> DFA subset construction and of the first-set / plan tables as an '
